@@ -17,6 +17,7 @@ REQUIRED = ['getNBest_shape', 'plurality_shape', 'quotaSelector_refusals', 'ha_s
             'selectNRandom_shape', 'selectNRandom_error', 'sortitor_shape', 'random_ballot_shape', 'random_selectors_refusals_partial',
             'random_ballot_exhausted_witness', 'rfc3797_shape', 'candidate_number_shape', 'selectLoop_popped', 'rfcLoop_popped',
             'selectLoop_error', 'rfcLoop_error', 'sortitor_refusals', 'selectLoop_error_ones', 'accumulate_pop',
+            'tb_plurality_shape', 'replaceDist_sum', 'replaceAll',
             'quotaSelector_shape', 'ha_refusals', 'list_tiebreaker_shape', 'alternative_threshold_shape', 'input_order_shape', 'abs_threshold_shape', 'rel_threshold_shape', 'openlist_shape',
             # Lemmas/ShapeRankedT2.lean
             'kemeny_shape', 'kemeny_refusals', 'rankedpairs_shape_partial', 'rankedpairs_shape_le_two', 'rankedpairs_refusals',
@@ -56,7 +57,7 @@ PROVED_FAMILIES = ['plurality', 'ha_d_hondt', 'ha_sainte_lague', 'ha_imperiali',
                    'condorcet_kemeny_young', 'condorcet_winner', 'smith_set', 'schwartz_set',
                    'stv_gregory_hare', 'stv_gregory_droop', 'stv_dist_gregory_droop', 'stv_gregory_hare_strict', 'stv_gregory_imperiali', 'stv_gregory_noquota',
                    'rel_threshold_5pc', 'rel_threshold_5pc_decimal', 'rel_threshold_5pc_float', 'rel_threshold_third', 'abs_threshold_2', 'openlist_jump_5pc', 'openlist_quota_precedence',
-                   'openlist_tiebreaker_plurality', 'threshold_alternative', 'aux_input_order', 'aux_sortitor', 'aux_random_ballot', 'aux_rfc3797', 'aux_candidate_number',
+                   'openlist_tiebreaker_plurality', 'threshold_alternative', 'tiebreaking_plurality_input_order', 'aux_input_order', 'aux_sortitor', 'aux_random_ballot', 'aux_rfc3797', 'aux_candidate_number',
                    'lr_imperiali_subtract', 'lr_hagenbach_bischoff_subtract', 'qd_imperiali_subtract',
                    'baldwin', 'benham', 'tideman_alternative', 'allocated_score_hare', 'approval_pav', 'approval_spav', 'score_sum0', 'star']
 PROVED_FAMILIES += [f + '_sparse' for f in PROVED_FAMILIES if f.startswith('condorcet_') or f in ('smith_set', 'schwartz_set')]
@@ -207,6 +208,11 @@ PARTIAL_FAMILIES = {
           'C08-score-candidate-without-grades); proved: score_shape / mj_shape (full), and the refusal clause under the exact hypothesis Graded '
           '(every candidate has a grade of positive weight): score_refusals_graded, score_total_graded, mjPlus_refusals_graded, mjPlus_total_graded'
        for k in ('score_mean', 'score_median', 'majority_judgment_plus')},
+    **{k: 'tb_dist_shape (no Tie key left, positive awards to parties of the votes, total n) is not proved as ONE theorem yet: the family is '
+          'modelled (VotelibModel/ShapeTieBreak.lean: main model + tieBreakDist, correspondence incl. the wide-tie cases) and the step is proved: '
+          'replaceDist_sum (replacing a Tie key by exactly as many winners as it holds seats keeps the seat total and the dict property); the '
+          'main results have the distribution shape (ha_shape / lr_shape); missing: the fold over all Tie keys and the positivity / key clauses'
+       for k in ('tiebreaking_ha_input_order', 'tiebreaking_lr_hare_input_order')},
     'majority_judgment': 'mjDefault_refusals (only declared refusals) is FALSE of the code (StatisticsError: mj_refusals_witness, open finding '
                          'C08-mj-statistics-error); proved: mj_shape (full), mjDefault_refusals_partial (VotingSystemError or StatisticsError)',
     'score_median_trunc_quarter': 'score_refusals needs truncation = 0: with truncation the code raises StatisticsError / ZeroDivisionError '
@@ -729,6 +735,12 @@ def model_line(case):
         return {'op': 'baldwin', 'votes': case['prof'], 'n': case['n']}
     if f in ('bucklin', 'oklahoma', 'bucklin_whole', 'oklahoma_whole'):
         return {'op': 'preference_addition', 'votes': case['prof'], 'n': case['n'], 'coef': f.split('_')[0], 'split': not f.endswith('_whole')}
+    if f == 'tiebreaking_plurality_input_order':
+        return {'op': 'tb_plurality', 'votes': case['prof'], 'n': case['n']}
+    if f == 'tiebreaking_lr_hare_input_order':
+        return {'op': 'tb_lr', 'quota': 'hare', 'accept_equal': True, 'on_overaward': 'error', 'n': case['n'], 'votes': case['prof']}
+    if f == 'tiebreaking_ha_input_order':
+        return {'op': 'tb_ha', 'divisor': 'd_hondt', 'first_coef': None, 'votes': case['prof'], 'n': case['n'], 'prev': [], 'max': []}
     if f == 'aux_input_order':
         return {'op': 'input_order', 'votes': case['prof'], 'n': case['n']}
     if f in ('aux_sortitor', 'aux_random_ballot'):
@@ -829,7 +841,8 @@ def compare(case, iobs, mobs):
     elif _bf(case['family']) in ('condorcet_winner', 'smith_set', 'schwartz_set'):
         # the order inside the set follows the Copeland ordering, ties in dict order: compare as the code returns it
         a, b = canon(iobs), canon(mobs)
-    elif case['family'].startswith(('ha_', 'lr_', 'qd_')) or case['family'] == 'stv_dist_gregory_droop':
+    elif case['family'].startswith(('ha_', 'lr_', 'qd_')) or case['family'] in ('stv_dist_gregory_droop', 'tiebreaking_ha_input_order',
+                                                                              'tiebreaking_lr_hare_input_order'):
         a, b = canon(iobs), canon_dist(mobs)
     else:
         a, b = canon(iobs), canon(mobs)
